@@ -144,6 +144,12 @@ def main(argv):
     chk.wm_litmus("publish-fence", defs, "batch_wake_safe pf", "[waker pf; waiter]", "lost_wakeup",
                   "publish_n's fence before wakeup_waiters is not seq_cst: a consumer can park while the publisher "
                   "misses its waiter bit")
+    chk.wm_litmus("publication", "Require Import Verif.Gen.Gen_topic.\n"
+                  "Definition pf : morder := match sites_publish_n with [_; _; _; (KFence, o, _); _] => o | _ => Relaxed end.\n"
+                  "Definition cf : morder := match sites_consume with [(KFence, o, _)] => o | _ => Relaxed end.",
+                  "mp_fence_orders_safe pf cf", "mp_fence_orders pf cf", "mp_bad",
+                  "publish_n's release fence or consume's acquire fence was weakened: a consumer can read an item "
+                  "before the publisher's writes are visible", machine="RA")
     chk.wm_litmus("close-fence", defs, "batch_wake_safe cf", "[waker cf; waiter]", "lost_wakeup",
                   "close()'s fence before wakeup_waiters is not seq_cst: a consumer can park and never see the end")
     model = chk.extract("tt", "Extract_tt.v", "tt_driver.ml", explorer=True)
